@@ -71,8 +71,8 @@ pub fn monitor(out: &RunOut) -> MonOut {
                     .map(|(i, _)| *i)
                     .unwrap_or(c.end);
                 let got: Vec<u32> = c.events.iter().filter(|(i, _)| *i < outcome_idx).filter_map(|(_, e)| if let EventRec::Progress(v) = e { Some(*v) } else { None }).collect();
-                // back-pressure on progress: the installer's k-th report returns when the state machine
-                // has picked it up, which it does only after the observer took the (k-1)-th value
+                // back-pressure on progress: the installer's k-th report returns only after the observer
+                // has taken value k - code after an awaited report never runs ahead of the consumer
                 // (reports that were cancelled or started in pairs are left out)
                 {
                     let sent_idx: Vec<usize> = (c.start..c.end).filter(|i| matches!(h[*i].kind, Kind::Installer(InstallerRec::ProgressSent { .. }))).collect();
@@ -81,10 +81,27 @@ pub fn monitor(out: &RunOut) -> MonOut {
                     let plain = sent_idx.len() == ret_idx.len() && sent_idx.iter().zip(ret_idx.iter()).all(|(s, r)| s < r) && sent_idx.windows(2).zip(ret_idx.iter()).all(|(w, r)| *r < w[1]);
                     let cancelled = out.stats.get("embedder.progress_report_cancelled").copied().unwrap_or(0) > 0;
                     if plain && !cancelled {
-                        for k in 1..ret_idx.len() {
-                            m.count("R2.progress_reports_after_the_previous_was_taken");
-                            if taken_idx.get(k - 1).map(|t| *t > ret_idx[k]).unwrap_or(true) {
-                                m.viol(p, "R2", &site, format!("progress report #{} returned to the installer before the observer had taken value #{}", k + 1, k));
+                        // control requests under way (sent, answer not yet seen by the client): after
+                        // answering one the machine polls the check once more before the observer gets
+                        // its turn, and the installer is then one step ahead; reports that overlap such a
+                        // request are left out
+                        let mut open_reqs: Vec<(usize, usize)> = vec![];
+                        for i in l.start..l.end {
+                            if let Kind::CtlInvoke { client, req, .. } = &h[i].kind {
+                                let end = (i..l.end)
+                                    .find(|j| matches!(&h[*j].kind, Kind::CtlReply { client: c2, req: r2, .. } if c2 == client && r2 == req))
+                                    .unwrap_or(l.end);
+                                open_reqs.push((i, end));
+                            }
+                        }
+                        for k in 0..ret_idx.len() {
+                            if open_reqs.iter().any(|(a, b)| *a < ret_idx[k] && *b > sent_idx[k]) {
+                                m.count("R2.progress_reports_beside_a_control_request");
+                                continue;
+                            }
+                            m.count("R2.progress_reports_returned_after_taken");
+                            if taken_idx.get(k).map(|t| *t > ret_idx[k]).unwrap_or(true) {
+                                m.viol(p, "R2", &site, format!("progress report #{} returned to the installer before the observer had taken its value", k + 1));
                                 break;
                             }
                         }
